@@ -73,7 +73,7 @@ func synth502(r *Report, f *ssa.Function, contact *ssa.Call, resIdx int, label s
 				continue
 			}
 			code, _ := constInt(c.Call.Args[0])
-			if code != 502 || c.Call.Args[2] != req {
+			if code != 502 || !sameAs(c.Call.Args[2], req) {
 				good, why = false, fmt.Sprintf("synthesised response has status %d or is not bound to this request", code)
 			}
 			resv = c
@@ -187,7 +187,7 @@ func c03(r *Report) {
 						continue
 					}
 					if ld, isLd := st.Val.(*ssa.UnOp); isLd {
-						if fa2, isFa2 := ld.X.(*ssa.FieldAddr); isFa2 && fieldObj(fa2).Name() == fld && fa2.X == ssa.Value(nr.Params[2]) {
+						if fa2, isFa2 := ld.X.(*ssa.FieldAddr); isFa2 && fieldObj(fa2).Name() == fld && isParamVal(fa2.X, nr.Params[2]) {
 							ok = true
 						}
 					}
